@@ -428,6 +428,48 @@ func runC01(r *rt.Run) {
 			c01Moved(shapes[i].E, probes, fp, idxCfgs[1:], w)
 		})
 	}
+	// zigzags every side of which crosses the horizontal midline of their own
+	// rectangle (a quadtree keeps all of them in its root node: the node's item
+	// list is exactly 0..n-1), with n either side of the one- and two-byte
+	// boundaries, as ring (self-crossing: membership is crossing parity) and as line
+	{
+		sizes := []int{254, 255, 256, 257, 258, 65536}
+		if r.Thorough() {
+			sizes = append(sizes, 65534, 65535, 65537, 65538)
+		}
+		r.Bounds["root_node_zigzag_sides"] = sizes
+		r.ParFor(2*len(sizes), func(i int, w *rt.Worker) {
+			n := sizes[i/2]
+			pos := n // a closed ring of n positions has n sides
+			if i%2 == 1 {
+				pos = n + 1 // an open line of n+1 positions has n segments
+			}
+			ps := make([]exact.P, pos)
+			for k := range ps {
+				y := int64(2 * (1 + k%3))
+				if k%2 == 1 {
+					y = -y
+				}
+				ps[k] = exact.P{X: int64(2 * k), Y: y}
+			}
+			var probes []exact.P
+			for _, k := range []int{0, 1, 2, 7, 100, 127, 128, 129, 200, 253, 254, 255, 256, pos / 2, pos - 3, pos - 2, pos - 1} {
+				if k < 0 || k >= pos {
+					continue
+				}
+				probes = append(probes, ps[k], exact.P{X: int64(2*k + 1), Y: 0}, exact.P{X: int64(2*k + 1), Y: 1}, exact.P{X: int64(2 * k), Y: 0}, exact.P{X: int64(2*k + 1), Y: -1})
+				if k+1 < pos {
+					probes = append(probes, exact.P{X: ps[k].X + 1, Y: (ps[k].Y + ps[k+1].Y) / 2}) // midpoint of side k (its ordinate sum is even or the probe is next to it)
+				}
+			}
+			s := &exact.Shape{Kind: exact.KPoly, Ext: ps}
+			if i%2 == 1 {
+				s = &exact.Shape{Kind: exact.KLine, Line: ps}
+			}
+			w.Trans += int64(pos)
+			c01Shape(s, ident, probes, ident.pts(probes), idxCfgs, w, false)
+		})
+	}
 	// two holes: every triangle over the 3x3 sub-lattice x a second hole from
 	// the same set (thorough) / from a fixed list (quick)
 	L3in := lat.Lattice(3, 1)
